@@ -253,3 +253,8 @@ pub fn gen_cases(seed: u64, n: usize, thorough: bool) -> Vec<String> {
     }
     out
 }
+
+pub fn program_names() -> Vec<&'static str> { PROGS.iter().map(|p| p.name).collect() }
+pub fn program_files(name: &str) -> Option<Vec<(String, String)>> {
+    prog(name).map(|p| p.files.iter().map(|(a, b)| (a.to_string(), b.to_string())).collect())
+}
